@@ -4,6 +4,9 @@
 import json, subprocess
 
 BUILT = {
+ "C13": ("exploration", "(a) Go race detector on a -race build with the real flush timer and sleep-only handlers that park statements across > 2 ticks; (b) offline checker over a hook event log (goroutine ids): no foreign page/header write inside a statement's change window",
+         "Held on the passes explored: every statement kind x placement (park at 2nd page change, inside the log append, at a cache miss; idle gaps), fresh and reloaded pages. Happens-before detection does not depend on the observed timing.",
+         "parks span > 2 ticks; race-build handlers add no synchronisation; races outside the five statement kinds (e.g. USE opening a store) are recorded, not judged"),
  "C17": ("exploration", "model of databases vs the real session under the real 100 ms flush timer: reads after every successful USE, and recovery + read of a copy of the data directory at every restart boundary (clean / os.Exit / SIGKILL)",
          "Held on the scripts explored (USE other/same/missing/other-case, CREATE DATABASE new/existing, SHOW, DDL/DML, pauses, restarts over 2-4 databases).",
          "names compared case-insensitively; abrupt restarts follow a pause of > 2 ticks"),
